@@ -46,6 +46,16 @@ type pgen struct {
 	r      *Rng
 	pf     Profile
 	nextID int
+	pool   []uint64
+}
+
+// msg: failure / skip / log message ids; half of the programs draw them from a pool of one to three ids, so that
+// different failure sites carry the same message
+func (g *pgen) msg() uint64 {
+	if len(g.pool) > 0 {
+		return g.pool[g.r.intn(len(g.pool))]
+	}
+	return uint64(g.r.intn(50))
 }
 
 func (g *pgen) id() int {
@@ -315,11 +325,11 @@ func (g *pgen) terminal(nvars int, inCustom bool) *Stmt {
 			return &Stmt{Op: "failv", Kind: pick(r, "fatal", "fatal", "panic"), Id: g.id(), E: cvar(r.intn(nvars)), D: cvar(r.intn(nvars)), Next: retUnit()}
 		}
 		if r.chance(70) {
-			return &Stmt{Op: "fail", Kind: "fatal", Variant: pick(r, "fatalf", "fatalf", "fatal", "failnow"), Id: g.id(), Msg: uint64(r.intn(50)), Next: retUnit()}
+			return &Stmt{Op: "fail", Kind: "fatal", Variant: pick(r, "fatalf", "fatalf", "fatal", "failnow"), Id: g.id(), Msg: g.msg(), Next: retUnit()}
 		}
-		return &Stmt{Op: "fail", Kind: "panic", Variant: pick(r, "panicstr", "panicerr", "nilderef"), Id: g.id(), Msg: uint64(r.intn(50)), Next: retUnit()}
+		return &Stmt{Op: "fail", Kind: "panic", Variant: pick(r, "panicstr", "panicerr", "nilderef"), Id: g.id(), Msg: g.msg(), Next: retUnit()}
 	}
-	return &Stmt{Op: "skip", Variant: pick(r, "skip", "skipf", "skipnow"), Msg: uint64(r.intn(50))}
+	return &Stmt{Op: "skip", Variant: pick(r, "skip", "skipf", "skipnow"), Msg: g.msg()}
 }
 
 // body generates a statement tree with up to `draws` further draws
@@ -357,7 +367,7 @@ func (g *pgen) body(depth int, nvars int, draws int, inCustom bool) *Stmt {
 	case 1:
 		return &Stmt{Op: "if", C: g.cond(nvars), A: g.terminalOrBody(depth, nvars, draws-1, inCustom), B: g.body(depth, nvars, draws-1, inCustom)}
 	case 2:
-		return &Stmt{Op: "fail", Kind: "error", Variant: pick(r, "errorf", "error", "fail"), Id: g.id(), Msg: uint64(r.intn(50)), Next: g.body(depth, nvars, draws-1, inCustom)}
+		return &Stmt{Op: "fail", Kind: "error", Variant: pick(r, "errorf", "error", "fail"), Id: g.id(), Msg: g.msg(), Next: g.body(depth, nvars, draws-1, inCustom)}
 	case 3:
 		fn := g.cleanupBody(nvars)
 		return &Stmt{Op: "cleanup", Id: g.id(), A: fn, Next: g.body(depth, nvars, draws-1, inCustom)}
@@ -367,7 +377,7 @@ func (g *pgen) body(depth int, nvars int, draws int, inCustom bool) *Stmt {
 		if r.chance(50) {
 			return &Stmt{Op: "failed", Next: g.body(depth, nvars+1, draws-1, inCustom)}
 		}
-		return &Stmt{Op: "log", Msg: uint64(r.intn(50)), Next: g.body(depth, nvars, draws-1, inCustom)}
+		return &Stmt{Op: "log", Msg: g.msg(), Next: g.body(depth, nvars, draws-1, inCustom)}
 	}
 	return g.repeat(depth, nvars, draws-1, inCustom)
 }
@@ -383,18 +393,18 @@ func (g *pgen) cleanupBody(nvars int) *Stmt {
 	r, pf := g.r, g.pf
 	if pf.CleanupPanicPct > 0 && r.chance(pf.CleanupPanicPct) {
 		if r.chance(50) {
-			return &Stmt{Op: "fail", Kind: "fatal", Variant: "fatalf", Id: g.id(), Msg: uint64(r.intn(50)), Next: retUnit()}
+			return &Stmt{Op: "fail", Kind: "fatal", Variant: "fatalf", Id: g.id(), Msg: g.msg(), Next: retUnit()}
 		}
-		return &Stmt{Op: "fail", Kind: "panic", Variant: "panicstr", Id: g.id(), Msg: uint64(r.intn(50)), Next: retUnit()}
+		return &Stmt{Op: "fail", Kind: "panic", Variant: "panicstr", Id: g.id(), Msg: g.msg(), Next: retUnit()}
 	}
 	switch r.intn(8) {
 	case 0:
 		if pf.NonFatal > 0 {
-			return &Stmt{Op: "fail", Kind: "error", Variant: "errorf", Id: g.id(), Msg: uint64(r.intn(50)), Next: retUnit()}
+			return &Stmt{Op: "fail", Kind: "error", Variant: "errorf", Id: g.id(), Msg: g.msg(), Next: retUnit()}
 		}
 	case 1:
 		if pf.Fail > 0 {
-			return &Stmt{Op: "fail", Kind: "fatal", Variant: "fatalf", Id: g.id(), Msg: uint64(r.intn(50)), Next: retUnit()}
+			return &Stmt{Op: "fail", Kind: "fatal", Variant: "fatalf", Id: g.id(), Msg: g.msg(), Next: retUnit()}
 		}
 	case 2:
 		if pf.Context > 0 {
@@ -406,10 +416,10 @@ func (g *pgen) cleanupBody(nvars int) *Stmt {
 		}
 	case 4:
 		if pf.Fail > 0 {
-			return &Stmt{Op: "fail", Kind: "panic", Variant: "panicstr", Id: g.id(), Msg: uint64(r.intn(50)), Next: retUnit()}
+			return &Stmt{Op: "fail", Kind: "panic", Variant: "panicstr", Id: g.id(), Msg: g.msg(), Next: retUnit()}
 		}
 	}
-	return &Stmt{Op: "log", Msg: uint64(r.intn(50)), Next: retUnit()}
+	return &Stmt{Op: "log", Msg: g.msg(), Next: retUnit()}
 }
 
 // repeat: state is an integer; actions draw, sometimes skip, and return a new state
@@ -430,12 +440,12 @@ func (g *pgen) repeat(depth, nvars, draws int, inCustom bool) *Stmt {
 		case 2: // draw and fail on a condition
 			if pf.Fail > 0 {
 				a = &Stmt{Op: "draw", Raw: r.chance(50), G: g.leaf(true), Next: &Stmt{Op: "if", C: g.cond(st + 2),
-					A: &Stmt{Op: "fail", Kind: "fatal", Variant: "fatalf", Id: g.id(), Msg: uint64(r.intn(50)), Next: retUnit()}, B: inc}}
+					A: &Stmt{Op: "fail", Kind: "fatal", Variant: "fatalf", Id: g.id(), Msg: g.msg(), Next: retUnit()}, B: inc}}
 			}
 		case 3:
 			if pf.NonFatal > 0 {
 				a = &Stmt{Op: "if", C: &Cond{Op: "lt", A: cconst(zv(int64(2 + r.intn(6)))), B: cvar(st)},
-					A: &Stmt{Op: "fail", Kind: "error", Variant: "errorf", Id: g.id(), Msg: uint64(r.intn(50)), Next: inc}, B: inc}
+					A: &Stmt{Op: "fail", Kind: "error", Variant: "errorf", Id: g.id(), Msg: g.msg(), Next: inc}, B: inc}
 			}
 		case 4:
 			if pf.Cleanup > 0 {
@@ -458,10 +468,10 @@ func (g *pgen) repeat(depth, nvars, draws int, inCustom bool) *Stmt {
 		switch {
 		case pf.Fail > 0 && r.chance(50):
 			chk = &Stmt{Op: "if", C: &Cond{Op: "lt", A: cconst(zv(int64(3 + r.intn(12)))), B: cvar(st)},
-				A: &Stmt{Op: "fail", Kind: "fatal", Variant: "fatalf", Id: g.id(), Msg: uint64(r.intn(50)), Next: retUnit()}, B: retUnit()}
+				A: &Stmt{Op: "fail", Kind: "fatal", Variant: "fatalf", Id: g.id(), Msg: g.msg(), Next: retUnit()}, B: retUnit()}
 		case pf.NonFatal > 0 && r.chance(50):
 			chk = &Stmt{Op: "if", C: &Cond{Op: "lt", A: cconst(zv(int64(3 + r.intn(12)))), B: cvar(st)},
-				A: &Stmt{Op: "fail", Kind: "error", Variant: "errorf", Id: g.id(), Msg: uint64(r.intn(50)), Next: retUnit()}, B: retUnit()}
+				A: &Stmt{Op: "fail", Kind: "error", Variant: "errorf", Id: g.id(), Msg: g.msg(), Next: retUnit()}, B: retUnit()}
 		default:
 			chk = &Stmt{Op: "log", Msg: 9, Next: retUnit()}
 		}
@@ -471,6 +481,11 @@ func (g *pgen) repeat(depth, nvars, draws int, inCustom bool) *Stmt {
 
 func GenProgram(r *Rng, pf Profile) *Program {
 	g := &pgen{r: r, pf: pf}
+	if r.chance(50) {
+		for k := 1 + r.intn(3); k > 0; k-- {
+			g.pool = append(g.pool, uint64(r.intn(50)))
+		}
+	}
 	root := g.body(0, 0, 1+r.intn(pf.MaxDraws), false)
 	return NewProgram(root)
 }
